@@ -57,7 +57,7 @@ fn seg() -> BoxedStrategy<Seg> {
 }
 
 pub fn ribbon_case(max_segs: usize) -> BoxedStrategy<RibbonCase> {
-    (0u8..24, 0u8..4, 0.0f32..=1.0, log_uniform(1.0, 1000.0), proptest::collection::vec(seg(), 1..=max_segs), proptest::option::weighted(0.03, 0u8..6))
+    (prop_oneof![2 => 0u16..24, 3 => 0u16..(RATES.len() as u16)], 0u8..4, 0.0f32..=1.0, log_uniform(1.0, 1000.0), proptest::collection::vec(seg(), 1..=max_segs), proptest::option::weighted(0.03, 0u8..6))
         .prop_map(|(rate_idx, softpot_idx, dropper_frac, pullup_factor, mut segs, huge)| {
             // occasionally one very long unbroken press (kept to the cheaper sample rates: the controller re-averages
             // its whole window on every sample)
@@ -72,14 +72,14 @@ pub fn ribbon_case(max_segs: usize) -> BoxedStrategy<RibbonCase> {
                 if let RunLen::Tap(f) = s0.len {
                     s0.len = RunLen::Tap(f.min(0.2));
                 }
-                let cheap = [0u8, 1, 2, 3, 4, 5, 6, 7, 16, 17, 18, 19, 20];
+                let cheap = [0u16, 1, 2, 3, 4, 5, 6, 7, 16, 17, 18, 19, 20];
                 rate_idx = cheap[rate_idx as usize % cheap.len()];
                 let mut burst = vec![s0; reps];
                 burst.extend(segs.drain(..));
                 segs = burst;
             }
             if let Some(k) = huge {
-                let cheap = [0u8, 1, 2, 3, 4, 5, 6, 7, 16, 17, 18, 19, 20];
+                let cheap = [0u16, 1, 2, 3, 4, 5, 6, 7, 16, 17, 18, 19, 20];
                 rate_idx = cheap[rate_idx as usize % cheap.len()];
                 let at = (k as usize) % segs.len();
                 segs[at].len = RunLen::Huge(k);
@@ -117,7 +117,7 @@ pub fn replay(property: &str, engine: &str, case: &Value) -> Result<(), Failure>
     }
 }
 
-const GEN: &str = "proptest histories: one of 24 compile-time sample rates (100 Hz .. 192 kHz, buffer sized by sample_rate_to_capacity), resistor triple (softpot in {5k,10k,20k,100k}, dropper in [100, softpot/5], pull-up = [1,1000] x divider, log-uniform), 1..8 segments = in-range run (length from {1-5 glitch, U[1,L*-1] tap, L*-1, L*, L*+1, up to L*+3*capacity}; level/ramp/noise per run; samples at least 1e-3 inside the in-range interval) followed by 1-3 out-of-range samples (at least 1e-3 outside); edge getters polled every k samples (k from {end only, 1, 2-49, 100-1999}); L* = measured capture length of a fresh controller, must be capacity + settling (-1); ";
+const GEN: &str = "proptest histories: one of 415 compile-time sample rates (every multiple of 500 Hz up to 192 kHz, audio-family rates, powers of two, neighbours of the ms boundaries; 100 Hz .. 192 kHz, buffer sized by sample_rate_to_capacity), resistor triple (softpot in {5k,10k,20k,100k}, dropper in [100, softpot/5], pull-up = [1,1000] x divider, log-uniform), 1..8 segments = in-range run (length from {1-5 glitch, U[1,L*-1] tap, L*-1, L*, L*+1, up to L*+3*capacity}; level/ramp/noise per run; samples at least 1e-3 inside the in-range interval) followed by 1-3 out-of-range samples (at least 1e-3 outside); edge getters polled every k samples (k from {end only, 1, 2-49, 100-1999}); L* = measured capture length of a fresh controller, must be capacity + settling (-1); ";
 
 pub fn c15(quick: bool, seed: u64) -> Outcome {
     let mut o = Outcome::new(&format!("{}model: r = length of the current unbroken in-range run, finger_is_pressing() == (r >= L*) after every sample, two latches for the edge getters. non-trivial = history with >= 2 runs in which a run shorter than L* precedes another run and >= 1 press is reported; distinct by hash", GEN));
